@@ -42,7 +42,28 @@ theorem walk_fuel (fs : FS κ) (root : κ) (hroot : fs.inJail root = true) (fuel
   · simp [St.init]
   · simpa [St.init, FS.fuel, Nat.add_comm] using hf
 
+/-- A scan root that resolves OUTSIDE the jail (the source directory is itself a link to a directory elsewhere): the walk
+comes back at once with nothing - whatever that directory holds, links to itself included (`dirs[:] = []` before the
+`continue`; the code before the fix left `dirs` alone and `os.walk`, which keeps no record of where it has been, went round
+2^depth times). -/
+theorem walk_root_outside_jail (fs : FS κ) (root : κ) (hroot : fs.inJail root = false) (fuel : Nat) :
+    walk fs root (fuel + 1) = .ok St.init := by
+  simp [walk, loop, step, hroot]
+
+/-- **Termination, for every scan root**: `fs.fuel` iterations suffice whether or not the root lies inside the jail. -/
+theorem walk_terminates (fs : FS κ) (root : κ) : walk fs root fs.fuel ≠ .error .fuel := by
+  by_cases hroot : fs.inJail root = true
+  · exact walk_fuel fs root hroot _ (Nat.le_refl _)
+  · have h : fs.inJail root = false := by simpa using hroot
+    have hf : fs.fuel = (fs.fuel - 1) + 1 := by simp [FS.fuel]
+    rw [hf, walk_root_outside_jail fs root h]
+    simp
+
 example : walk exFS 0 exFS.fuel ≠ .error .fuel := walk_fuel exFS 0 (by decide) _ (Nat.le_refl _)
+/-- the source directory linked to a content directory outside the jail which holds two links to itself -/
+example : walk ({ dirs := [(9, [⟨"latest", .dir 9, false⟩, ⟨"current", .dir 9, false⟩, ⟨"page.txt", .file 90, true⟩])],
+                  inJail := fun c => c != 9 && c != 90, hasToml := fun _ => false } : FS Nat) 9 1 = .ok St.init :=
+  walk_root_outside_jail _ 9 (by decide) 0
 /-- the bound is attained (one unit less and the model does run out), so the theorem is not about a slack bound -/
 example : (match walk exCycle 0 (exCycle.fuel - 1) with | .error .fuel => true | _ => false) = true := by decide
 
